@@ -227,6 +227,27 @@ class Lowerer:
             n += 1
         return False
 
+    def access_of(self, declid):
+        """'public' | 'protected' | 'private' of a member declaration (from the AccessSpecDecl sequence)."""
+        if not hasattr(self, '_access'):
+            self._access = {}
+        if declid in self._access:
+            return self._access[declid]
+        rec = self.rec_of_decl.get(declid)
+        if rec is None or rec not in self.records:
+            return 'public'
+        node = self.records[rec].node
+        cur = 'private' if node.get('tagUsed') == 'class' else 'public'
+        for c in kids(node):
+            if c.get('kind') == 'AccessSpecDecl':
+                cur = c.get('access', cur)
+            elif 'id' in c:
+                self._access[c['id']] = cur
+                for cc in kids(c):
+                    if 'id' in cc and c.get('kind') == 'FunctionTemplateDecl':
+                        self._access[cc['id']] = cur
+        return self._access.get(declid, 'public')
+
     def _index_record(self, o, template):
         if self._in_use_ns(o) or not self._is_phq_decl(o):
             return
